@@ -20,6 +20,8 @@ pub(crate) enum PhysLayerImpl {
     Tls(Box<tokio_rustls::TlsStream<tokio::net::TcpStream>>),
     #[cfg(test)]
     Mock(sfio_tokio_mock_io::Mock),
+    #[cfg(feature = "verif-hooks")]
+    Verif(Box<dyn crate::verif::VerifIo>),
 }
 
 impl std::fmt::Debug for PhysLayer {
@@ -32,6 +34,8 @@ impl std::fmt::Debug for PhysLayer {
             PhysLayerImpl::Tls(_) => f.write_str("Tls"),
             #[cfg(test)]
             PhysLayerImpl::Mock(_) => f.write_str("Mock"),
+            #[cfg(feature = "verif-hooks")]
+            PhysLayerImpl::Verif(_) => f.write_str("Verif"),
         }
     }
 }
@@ -65,6 +69,13 @@ impl PhysLayer {
         }
     }
 
+    #[cfg(feature = "verif-hooks")]
+    pub(crate) fn new_verif(io: Box<dyn crate::verif::VerifIo>) -> Self {
+        Self {
+            layer: PhysLayerImpl::Verif(io),
+        }
+    }
+
     pub(crate) async fn read(
         &mut self,
         buffer: &mut [u8],
@@ -78,6 +89,8 @@ impl PhysLayer {
             PhysLayerImpl::Tls(x) => x.read(buffer).await?,
             #[cfg(test)]
             PhysLayerImpl::Mock(x) => x.read(buffer).await?,
+            #[cfg(feature = "verif-hooks")]
+            PhysLayerImpl::Verif(x) => x.read(buffer).await?,
         };
 
         if decode_level.enabled() {
@@ -114,6 +127,8 @@ impl PhysLayer {
             PhysLayerImpl::Tls(x) => x.write_all(data).await,
             #[cfg(test)]
             PhysLayerImpl::Mock(x) => x.write_all(data).await,
+            #[cfg(feature = "verif-hooks")]
+            PhysLayerImpl::Verif(x) => x.write_all(data).await,
         }
     }
 }
